@@ -50,7 +50,11 @@ var replayCmd = map[string]string{"abortsim": "c11-replay", "ordersim": "c14-rep
 
 // confirm re-executes a violation's replay document in a fresh process.
 func (c *checkCtx) confirm(v Violation) (bool, string) {
-	if v.Engine == "simsched" {
+	var streamDoc struct {
+		Stream json.RawMessage `json:"stream"`
+	}
+	json.Unmarshal(v.Replay, &streamDoc)
+	if v.Engine == "simsched" && len(streamDoc.Stream) == 0 {
 		var p plan.SchedPlan
 		if err := json.Unmarshal(v.Replay, &p); err != nil {
 			return false, err.Error()
@@ -362,6 +366,7 @@ func runCheck(args []string) int {
 		opts.pure = true
 	case "C13":
 		fn = checkC13
+		opts.pure = true
 	case "C12":
 		fn = checkC12
 		opts.race = true
